@@ -1,75 +1,102 @@
 (* C07 — Issued tokens verify; any change to a signed token is detected.
-   Signatures are symbolic: `valid k m s` is the verifier of key k accepting signature s for
-   message m; the hypotheses name exactly what is assumed of Ed25519 / RSA and of the
-   external string encodings (dag-json, base64url joining, DID and CID strings). *)
-From Ucanto Require Import Base Ipld Cbor Formats Signing SigningExample.
+   The signed message is modelled byte for byte (DagJson.v: dag-json of header and payload,
+   base64url, '.', DID and CID strings; checked against formatter.FormatSignPayload on every
+   run).  Only the signature primitive is symbolic: `valid k m s` is the verifier of key k
+   accepting signature s for message m; the two hypotheses name exactly what is assumed of
+   Ed25519 / RSA.  Tamper detection holds on the tokens whose payload is json_safe (no map of
+   the reserved dag-json shapes {"/": string} / {"/": {"bytes": string}}, every string valid
+   UTF-8) and is REFUTED without that premise (the dag-json collisions, KNOWN_FINDINGS). *)
+From Ucanto Require Import Base Ipld Cbor Formats BaseEnc JsonText Did DagJson Signing SigningExample.
 
 Section C07.
-  Variable did_string cid_string : bstr -> bstr.
-  Variable json : ipld -> bstr.
   Variable sign : N -> bstr -> bstr.
   Variable valid : N -> bstr -> bstr -> bool.
   Variable alg_of did_of : N -> bstr.
-  Variable join : bstr * bstr -> bstr.
   Hypothesis valid_sign : forall k m, valid k m (sign k m) = true.
   Hypothesis valid_unique : forall k m m' s, valid k m s = true -> valid k m' s = true -> m = m'.
-  Hypothesis json_inj : forall a b, wf_ipld a = true -> wf_ipld b = true -> json a = json b -> canon a = canon b.
-  Hypothesis json_canon : forall a, json (canon a) = json a.
-  Hypothesis join_inj : forall a b, join a = join b -> a = b.
 
   (* every token the library issues — with any combination of expiration / no expiration,
      not-before, nonce, facts, proofs, capabilities, caveat values, any key — verifies
      against its issuer's verifier *)
   Theorem C07_issue_verifies : forall k ver aud att prf exp fct nnc nbf,
-    verify did_string cid_string json valid alg_of did_of join
-      (issue did_string cid_string json sign alg_of did_of join k ver aud att prf exp fct nnc nbf) k = true.
-  Proof. exact (issue_verifies did_string cid_string json sign valid alg_of did_of valid_sign join). Qed.
+    verify valid alg_of did_of (issue sign alg_of did_of k ver aud att prf exp fct nnc nbf) k = true.
+  Proof. exact (issue_verifies sign valid alg_of did_of valid_sign). Qed.
 
   (* ... and still does after being encoded, transported and decoded (the decoder returns the
-     token with caveats / facts in canonical map order) *)
+     token with caveats / facts in canonical map order; the signed bytes do not change) *)
   Theorem C07_transport_bytes : forall t,
     wf_ipld (token_ipld t) = true -> in_budget (token_ipld t) = true ->
     token_decode (token_bytes t) = Some (canon_token t).
   Proof. exact token_transport. Qed.
 
   Theorem C07_transport_verifies : forall t k,
-    verify did_string cid_string json valid alg_of did_of join t k = true ->
-    verify did_string cid_string json valid alg_of did_of join (canon_token t) k = true.
-  Proof. exact (verify_after_transport did_string cid_string json valid alg_of did_of json_canon join). Qed.
+    verify valid alg_of did_of t k = true -> verify valid alg_of did_of (canon_token t) k = true.
+  Proof. exact (verify_after_transport valid alg_of did_of). Qed.
 
   (* tamper detection: if t verifies for k and t' carries the same signature bytes and also
-     verifies for k, then t' has the same issuer, the same (canonical) signing payload and the
-     same header — so a change to any signed field with the signature kept makes verification fail *)
+     verifies for k, then t' has the same version, issuer, audience, capabilities and caveats,
+     proofs, expiration, facts, nonce and not-before — so a change to any signed field with the
+     signature kept makes verification fail.  Domain: payloads that are json_safe. *)
   Theorem C07_tamper : forall t t' k,
-    wf_ipld (payload_ipld did_string cid_string t true) = true ->
-    wf_ipld (payload_ipld did_string cid_string t' true) = true ->
+    json_safe (header_ipld (alg_of k) (u_v t)) = true -> json_safe (header_ipld (alg_of k) (u_v t')) = true ->
     wf_ipld (header_ipld (alg_of k) (u_v t)) = true -> wf_ipld (header_ipld (alg_of k) (u_v t')) = true ->
-    verify did_string cid_string json valid alg_of did_of join t k = true ->
-    verify did_string cid_string json valid alg_of did_of join t' k = true -> u_s t' = u_s t ->
-    u_iss t' = u_iss t /\
-    canon (payload_ipld did_string cid_string t' true) = canon (payload_ipld did_string cid_string t true) /\
-    canon (header_ipld (alg_of k) (u_v t')) = canon (header_ipld (alg_of k) (u_v t)).
-  Proof. exact (verify_binds_payload did_string cid_string json valid alg_of did_of valid_unique json_inj join join_inj). Qed.
+    json_safe (payload_ipld t true) = true -> json_safe (payload_ipld t' true) = true ->
+    wf_ipld (payload_ipld t true) = true -> wf_ipld (payload_ipld t' true) = true ->
+    token_ids_ok t = true -> token_ids_ok t' = true ->
+    verify valid alg_of did_of t k = true -> verify valid alg_of did_of t' k = true -> u_s t' = u_s t ->
+    u_v t' = u_v t /\ u_iss t' = u_iss t /\ u_aud t' = u_aud t /\
+    map canon_cap (u_att t') = map canon_cap (u_att t) /\ prf_list t' = prf_list t /\
+    u_exp t' = u_exp t /\ option_map (map canon_fact) (u_fct t') = option_map (map canon_fact) (u_fct t) /\
+    u_nnc t' = u_nnc t /\ u_nbf t' = u_nbf t.
+  Proof. exact (verify_binds_payload valid alg_of did_of valid_unique). Qed.
 
   (* verification against any other principal fails *)
   Theorem C07_other_principal : forall t k k',
-    verify did_string cid_string json valid alg_of did_of join t k = true ->
+    verify valid alg_of did_of t k = true ->
     did_of k' <> did_of k ->
-    verify did_string cid_string json valid alg_of did_of join t k' = false.
-  Proof. exact (verify_other_principal did_string cid_string json valid alg_of did_of join). Qed.
+    verify valid alg_of did_of t k' = false.
+  Proof. exact (verify_other_principal valid alg_of did_of). Qed.
 End C07.
 
-(* the signing payload determines every signed field: issuer, audience, every capability and
-   caveat, proofs, expiration, facts, nonce, not-before *)
-Theorem C07_payload_determines_fields : forall did_string cid_string,
-  (forall a b, cid_string a = cid_string b -> a = b) ->
-  forall t t',
-  payload_ipld did_string cid_string t true = payload_ipld did_string cid_string t' true ->
-  did_string (u_iss t) = did_string (u_iss t') /\ did_string (u_aud t) = did_string (u_aud t') /\
-  u_att t = u_att t' /\
-  match u_prf t with Some l => l | None => [] end = match u_prf t' with Some l => l | None => [] end /\
-  u_exp t = u_exp t' /\ u_fct t = u_fct t' /\ u_nnc t = u_nnc t' /\ u_nbf t = u_nbf t'.
-Proof. exact payload_inj. Qed.
+(* the signed bytes (formatter.FormatSignPayload) determine the algorithm, the version and every
+   payload field: issuer, audience, every capability and caveat, proofs, expiration, facts,
+   nonce, not-before *)
+Theorem C07_signed_bytes_determine_fields : forall alg alg' t t',
+  json_safe (header_ipld alg (u_v t)) = true -> json_safe (header_ipld alg' (u_v t')) = true ->
+  wf_ipld (header_ipld alg (u_v t)) = true -> wf_ipld (header_ipld alg' (u_v t')) = true ->
+  json_safe (payload_ipld t true) = true -> json_safe (payload_ipld t' true) = true ->
+  wf_ipld (payload_ipld t true) = true -> wf_ipld (payload_ipld t' true) = true ->
+  token_ids_ok t = true -> token_ids_ok t' = true ->
+  sign_payload alg t = sign_payload alg' t' ->
+  alg = alg' /\ u_v t = u_v t' /\ u_iss t = u_iss t' /\ u_aud t = u_aud t' /\
+  map canon_cap (u_att t) = map canon_cap (u_att t') /\ prf_list t = prf_list t' /\
+  u_exp t = u_exp t' /\ option_map (map canon_fact) (u_fct t) = option_map (map canon_fact) (u_fct t') /\
+  u_nnc t = u_nnc t' /\ u_nbf t = u_nbf t'.
+Proof. exact sign_payload_inj. Qed.
+
+(* json_safe of the payload follows from a condition on the token's own fields *)
+Theorem C07_payload_safe_of_token : forall t, token_json_safe t = true -> json_safe (payload_ipld t true) = true.
+Proof. exact payload_safe_of_token. Qed.
+
+(* dag-json is injective on json_safe values, up to the order of map entries, and blind to it *)
+Theorem C07_dagjson_injective : forall a b,
+  json_safe a = true -> json_safe b = true -> wf_ipld a = true -> wf_ipld b = true ->
+  json_encode a = json_encode b -> canon a = canon b.
+Proof. exact json_encode_inj. Qed.
+
+Theorem C07_dagjson_key_order : forall a, json_encode (canon a) = json_encode a.
+Proof. exact json_encode_canon. Qed.
+
+(* the string forms *)
+Theorem C07_base64url_injective : forall a b, bytes_lt a -> bytes_lt b -> b64url a = b64url b -> a = b.
+Proof. exact b64url_inj. Qed.
+
+Theorem C07_cid_string_injective : forall a b, bytes_lt a -> bytes_lt b -> cid_string a = cid_string b -> a = b.
+Proof. exact cid_string_inj. Qed.
+
+Theorem C07_did_string_injective : forall a b,
+  bytes_lt a -> bytes_lt b -> did_okb a = true -> did_okb b = true -> did_string a = did_string b -> a = b.
+Proof. exact did_string_inj. Qed.
 
 (* the token block bytes determine the token *)
 Theorem C07_bytes_determine_token : forall a b,
@@ -83,11 +110,40 @@ Theorem C07_pinned_refuted :
        ex_verify_pinned (ex_issue k ver aud att prf exp fct nnc nbf) k = true).
 Proof. exact pinned_issue_verifies_refuted. Qed.
 
+(* dag-json is NOT injective on all well-formed values: a map {"/": {"bytes": "AQID"}} prints like
+   the bytes 01 02 03, a map {"/": "<cid>"} like the link, invalid UTF-8 bytes all print as U+FFFD *)
+Theorem C07_dagjson_collision_bytes : exists a b, collision a b.
+Proof. exact json_inj_refuted_bytes. Qed.
+Theorem C07_dagjson_collision_link : exists a b, collision a b.
+Proof. exact json_inj_refuted_link. Qed.
+Theorem C07_dagjson_collision_utf8 : exists a b, collision a b.
+Proof. exact json_inj_refuted_utf8. Qed.
+
+Theorem C07_dagjson_injective_unrestricted_refuted :
+  ~ (forall a b, wf_ipld a = true -> wf_ipld b = true -> json_encode a = json_encode b -> canon a = canon b).
+Proof. exact json_inj_refuted. Qed.
+
+(* ... so tamper detection without the json_safe premise is false: two different tokens with the
+   same signature both verify (witness: caveat bytes replaced by the map that prints the same) *)
+Theorem C07_tamper_unrestricted_refuted : ~ tamper_unrestricted.
+Proof. exact tamper_unrestricted_refuted. Qed.
+
 Print Assumptions C07_issue_verifies.
 Print Assumptions C07_transport_bytes.
 Print Assumptions C07_transport_verifies.
 Print Assumptions C07_tamper.
 Print Assumptions C07_other_principal.
-Print Assumptions C07_payload_determines_fields.
+Print Assumptions C07_signed_bytes_determine_fields.
+Print Assumptions C07_payload_safe_of_token.
+Print Assumptions C07_dagjson_injective.
+Print Assumptions C07_dagjson_key_order.
+Print Assumptions C07_base64url_injective.
+Print Assumptions C07_cid_string_injective.
+Print Assumptions C07_did_string_injective.
 Print Assumptions C07_bytes_determine_token.
 Print Assumptions C07_pinned_refuted.
+Print Assumptions C07_dagjson_collision_bytes.
+Print Assumptions C07_dagjson_collision_link.
+Print Assumptions C07_dagjson_collision_utf8.
+Print Assumptions C07_dagjson_injective_unrestricted_refuted.
+Print Assumptions C07_tamper_unrestricted_refuted.
